@@ -215,17 +215,23 @@ func TestCheck(t *testing.T) {
 		"object kind cycles through all 12 core.Eth2SignedData types x every fork version (7 attestation, 5+5 blinded proposal (bellatrix..fulu; charon refuses phase0/altair proposals as unsupported), 7 versioned aggregate-and-proof versions; %d kinds), content from charon's testutil generators (not seed-reproducible) with PRNG slots/epochs around the mock's fork boundaries; "+
 		"cluster from cluster.NewForT with real key shares, n in 3..%d, t=ceil(2n/3), 3 validators; 1..3 validators per call; "+
 		"call class PRNG: valid (threshold subsets walked round-robin so that every subset of size >= t is used for n<=5; PRNG subsets above, partial order shuffled) / one of %d must-error corruption classes applied to exactly one validator of the call / one of %d universal-only classes; "+
+		"30%% of the valid calls are followed by a replay that keeps one validator's first partial byte-identical and re-signs another of its partials with an unrelated key (must be refused although the same head was verified a moment before); "+
+		"35%% of all calls (valid and corrupted alike) run under a per-call beacon-node fault plan carried in the context: 1-2 rules over the verifier's lookups (Spec, Domain, GenesisDomain, Genesis, ForkSchedule, SlotsPerEpoch, or 'k-th lookup of the call whichever it is'), each failing with an error or a context-deadline error always / only the k-th time / from the k-th time on; "+
 		"non-trivial = the call carried at least one validator with >= t partials or a corruption; distinct = hash(kind, n, class, labels, corrupted position, validators)",
 		len(kinds), maxN, len(mustErrorClasses), len(universalOnlyClasses)))
 	r.Assume("herumi BLS (tbls.Verify / tbls.Sign) is correct (C08); the harness verifies published signatures with tbls.Verify directly against a signing root it computes itself (object hash-tree-root via go-eth2-client types, domain from the mock's raw spec / genesis / fork schedule)")
 	r.Assume("the voluntary-exit domain follows the mock's fork schedule (EIP-7044 Capella pinning lives in eth2wrap's http adapter, which beaconmock bypasses)")
 	r.Assume("attestations with Data.Slot = 20 (mod 2^32) are not generated: without ValidatorIndex they cannot be SSZ-cloned by charon (encoding defect outside this property, reported separately)")
+	r.Assume("beacon-node faults are injected in a wrapper around beaconmock at the eth2wrap.Client methods the verifier uses; a timeout is an immediate context.DeadlineExceeded error (no real waiting); under a served fault a valid call may be refused or published, a corrupted call must still be refused")
 	r.Assume("monitor subscribers always return nil, so an error from Aggregate is never a subscriber's own error")
 	r.RacePkgs(false, "core/sigagg")
 	r.Require("published_objects_verified", 2000)
 	r.Require("calls_valid_published", 1000)
 	r.Require("calls_must_error_rejected", 2000)
 	r.Require("calls_universal_only", 500)
+	r.Require("replay_followup_calls", 300)
+	r.Require("fault_served_calls", 1000)
+	r.Require("fault_served_calls_with_corruption", 500)
 
 	bmock, err := beaconmock.New(ctx)
 	if err != nil {
@@ -274,7 +280,7 @@ func TestCheck(t *testing.T) {
 			env.groups = append(env.groups, g)
 			env.pubs = append(env.pubs, core.PubKeyFrom48Bytes(g))
 		}
-		agg, err := sigagg.New(th, sigagg.NewVerifier(bmock))
+		agg, err := sigagg.New(th, sigagg.NewVerifier(faultClient{Client: bmock}))
 		if err != nil {
 			r.Inconclusive("sigagg.New: %v", err)
 			return
@@ -712,6 +718,9 @@ func (p *valPlan) consistentGenuine(t int) bool {
 }
 
 func isMustError(class string) bool {
+	if strings.HasPrefix(class, "replayed-first-partial/") {
+		return true
+	}
 	for _, c := range mustErrorClasses {
 		if c == class {
 			return true
@@ -798,119 +807,217 @@ func runCase(ctx context.Context, c *kit.Case, ch *chain, mon *monitor, env *clu
 		}
 	}
 
-	id := callSeq.Add(1)
-	rec := &callRec{}
-	mon.calls.Store(id, rec)
-	defer mon.calls.Delete(id)
-	duty := core.Duty{Slot: id, Type: k.duty}
+	// newPlan: beacon-node fault plan of a call (travels in the context; see faults_test.go).
+	newPlan := func() *faultPlan {
+		if rng.Intn(100) >= 35 {
+			return nil
+		}
+		fp := newFaultPlan(rng)
+		hashParts = append(hashParts, fp.String())
 
-	err := env.agg.Aggregate(ctx, duty, set)
+		return fp
+	}
 
-	rec.mu.Lock()
-	pubs := append([]published(nil), rec.pubs...)
-	rec.mu.Unlock()
+	// execute performs one Aggregate call and judges it.
+	execute := func(set map[core.PubKey][]core.ParSignedData, plans []*valPlan, class string, victim int, fplan *faultPlan) error {
+		id := callSeq.Add(1)
+		rec := &callRec{}
+		mon.calls.Store(id, rec)
+		defer mon.calls.Delete(id)
+		duty := core.Duty{Slot: id, Type: k.duty}
 
-	witness := func(extra map[string]any) map[string]any {
-		w := map[string]any{"kind": k.name, "n": env.n, "t": env.t, "class": class, "validators_in_call": nv, "corrupted_validator_position": victim, "aggregate_error": fmt.Sprint(err)}
-		var vs []map[string]any
+		callCtx := ctx
+		if fplan != nil {
+			callCtx = withFaultPlan(ctx, fplan)
+		}
+
+		err := env.agg.Aggregate(callCtx, duty, set)
+		fired, lookups, lookupOrder := fplan.snapshot()
+		faultServed := len(fired) > 0
+
+		rec.mu.Lock()
+		pubs := append([]published(nil), rec.pubs...)
+		rec.mu.Unlock()
+
+		witness := func(extra map[string]any) map[string]any {
+			w := map[string]any{"kind": k.name, "n": env.n, "t": env.t, "class": class, "validators_in_call": len(plans), "corrupted_validator_position": victim, "aggregate_error": fmt.Sprint(err)}
+			var vs []map[string]any
+			for _, p := range plans {
+				vs = append(vs, map[string]any{"validator": p.vi, "group_pubkey": string(p.pub), "class": p.class, "note": p.note, "partials": p.meta})
+			}
+			w["validators"] = vs
+			if fplan != nil {
+				w["beacon_node_faults"] = map[string]any{"rules": fplan.Rules, "lookups_in_order": lookupOrder, "faults_served": fired}
+			}
+			for k, v := range extra {
+				w[k] = v
+			}
+
+			return w
+		}
+
+		r.Count("calls", 1)
+		r.Count("calls/"+class, 1)
+		r.Seen("kinds_seen", k.name)
+		r.Seen("classes_seen", class)
+		r.Seen("cluster_sizes", fmt.Sprintf("n=%d,t=%d", env.n, env.t))
+
+		// Rule 1: an error means nothing at all was published for this call.
+		if err != nil && len(pubs) > 0 {
+			c.Violation("sigagg/Aggregate/error-but-subscriber-called", fmt.Sprintf("Aggregate returned an error (%s) but subscribers were called %d times for this call", kit.Short(err.Error(), 80), len(pubs)), witness(nil))
+		}
+		// Rule 2: the listed corruption classes must be refused.
+		if isMustError(class) {
+			if err == nil {
+				c.Violation("sigagg/Aggregate/accepts-corrupt-partials/"+class, "Aggregate returned nil although one validator's partials were corrupted ("+class+")", witness(nil))
+			} else {
+				r.Count("calls_must_error_rejected", 1)
+				r.Seen("reject_reasons", class+" => "+reason(err))
+			}
+		}
+		// Rule 3 (universal): whatever was published verifies under the group key for its own signing
+		// root and was signed by at least t shares over exactly that root.
+		byPub := map[core.PubKey]*valPlan{}
 		for _, p := range plans {
-			vs = append(vs, map[string]any{"validator": p.vi, "group_pubkey": string(p.pub), "class": p.class, "note": p.note, "partials": p.meta})
+			byPub[p.pub] = p
 		}
-		w["validators"] = vs
-		for k, v := range extra {
-			w[k] = v
+		for _, pb := range pubs {
+			for pk, obj := range pb.set {
+				p, ok := byPub[pk]
+				if !ok {
+					c.Violation("sigagg/publish/unknown-validator", "subscriber received an object for a public key that was not part of the call", witness(map[string]any{"pubkey": string(pk)}))
+					continue
+				}
+				in, ierr := inspect(obj, ch.spe)
+				if ierr != nil {
+					c.Violation("sigagg/publish/unreadable-object", "published object cannot be read: "+ierr.Error(), witness(nil))
+					continue
+				}
+				sr, serr := ch.signingRoot(in)
+				if serr != nil {
+					r.Inconclusive("case %d: signing root: %v", c.Idx, serr)
+					continue
+				}
+				pw := map[string]any{"published_for": string(pk), "published_type": in.Type, "published_version": in.Version, "published_object_root": hx(in.Root[:]),
+					"published_domain": in.Domain, "published_epoch": in.Epoch, "published_signing_root": hx(sr[:]), "published_signature": hx(in.Sig[:]), "subscriber": pb.sub}
+				if verr := tbls.Verify(env.groups[p.vi], sr[:], tbls.Signature(in.Sig)); verr != nil {
+					c.Violation("sigagg/publish/signature-invalid-under-group-key/"+class, fmt.Sprintf("published %s does not verify under the validator's group public key for its own signing root/domain/epoch: %v", in.Type, verr), witness(pw))
+				}
+				signers := map[int]bool{}
+				for _, m := range p.meta {
+					if m.realShare != 0 && m.signedSR == sr {
+						signers[m.realShare] = true
+					}
+				}
+				if len(signers) < env.t {
+					c.Violation("sigagg/publish/content-not-signed-by-threshold/"+class, fmt.Sprintf("published %s has a content/signing root that only %d < t=%d of the validator's shares signed among the supplied partials", in.Type, len(signers), env.t), witness(pw))
+				}
+				r.Count("published_objects_verified", 1)
+				r.Count("published/"+in.Type, 1)
+			}
 		}
-
-		return w
-	}
-
-	r.Count("calls", 1)
-	r.Count("calls/"+class, 1)
-	r.Seen("kinds_seen", k.name)
-	r.Seen("classes_seen", class)
-	r.Seen("cluster_sizes", fmt.Sprintf("n=%d,t=%d", env.n, env.t))
-
-	// Rule 1: an error means nothing at all was published for this call.
-	if err != nil && len(pubs) > 0 {
-		c.Violation("sigagg/Aggregate/error-but-subscriber-called", fmt.Sprintf("Aggregate returned an error (%s) but subscribers were called %d times for this call", kit.Short(err.Error(), 80), len(pubs)), witness(nil))
-	}
-	// Rule 2: the listed corruption classes must be refused.
-	if isMustError(class) {
-		if err == nil {
-			c.Violation("sigagg/Aggregate/accepts-corrupt-partials/"+class, "Aggregate returned nil although one validator's partials were corrupted ("+class+")", witness(nil))
-		} else {
-			r.Count("calls_must_error_rejected", 1)
-			r.Seen("reject_reasons", class+" => "+reason(err))
+		allValid := true
+		for _, p := range plans {
+			allValid = allValid && p.class == "valid"
 		}
-	}
-	// Rule 3 (universal): whatever was published verifies under the group key for its own signing
-	// root and was signed by at least t shares over exactly that root.
-	byPub := map[core.PubKey]*valPlan{}
-	for _, p := range plans {
-		byPub[p.pub] = p
-	}
-	for _, pb := range pubs {
-		for pk, obj := range pb.set {
-			p, ok := byPub[pk]
-			if !ok {
-				c.Violation("sigagg/publish/unknown-validator", "subscriber received an object for a public key that was not part of the call", witness(map[string]any{"pubkey": string(pk)}))
-				continue
+		// fault accounting: by endpoint/mode and outcome
+		if fplan != nil {
+			outcome := "published"
+			if err != nil {
+				outcome = "error"
 			}
-			in, ierr := inspect(obj, ch.spe)
-			if ierr != nil {
-				c.Violation("sigagg/publish/unreadable-object", "published object cannot be read: "+ierr.Error(), witness(nil))
-				continue
+			group := "universal-only"
+			switch {
+			case allValid:
+				group = "valid"
+			case isMustError(class):
+				group = "must-error"
 			}
-			sr, serr := ch.signingRoot(in)
-			if serr != nil {
-				r.Inconclusive("case %d: signing root: %v", c.Idx, serr)
-				continue
-			}
-			pw := map[string]any{"published_for": string(pk), "published_type": in.Type, "published_version": in.Version, "published_object_root": hx(in.Root[:]),
-				"published_domain": in.Domain, "published_epoch": in.Epoch, "published_signing_root": hx(sr[:]), "published_signature": hx(in.Sig[:]), "subscriber": pb.sub}
-			if verr := tbls.Verify(env.groups[p.vi], sr[:], tbls.Signature(in.Sig)); verr != nil {
-				c.Violation("sigagg/publish/signature-invalid-under-group-key/"+class, fmt.Sprintf("published %s does not verify under the validator's group public key for its own signing root/domain/epoch: %v", in.Type, verr), witness(pw))
-			}
-			signers := map[int]bool{}
-			for _, m := range p.meta {
-				if m.realShare != 0 && m.signedSR == sr {
-					signers[m.realShare] = true
+			r.Count("fault_plan_calls", 1)
+			for ep, n := range lookups {
+				if ep != epAny {
+					r.Count("verifier_lookups_under_plan/"+ep, int64(n))
 				}
 			}
-			if len(signers) < env.t {
-				c.Violation("sigagg/publish/content-not-signed-by-threshold/"+class, fmt.Sprintf("published %s has a content/signing root that only %d < t=%d of the validator's shares signed among the supplied partials", in.Type, len(signers), env.t), witness(pw))
+			if faultServed {
+				r.Count("fault_served_calls", 1)
+				r.Count("fault_served_calls/"+group+"/"+outcome, 1)
+				if !allValid {
+					r.Count("fault_served_calls_with_corruption", 1)
+				}
+				for key, n := range fired {
+					r.Count("faults_served/"+key, int64(n))
+					r.Count("fault_outcome/"+key+"/"+group+"/"+outcome, 1)
+				}
+			} else {
+				r.Count("fault_plan_never_triggered_calls", 1)
 			}
-			r.Count("published_objects_verified", 1)
-			r.Count("published/"+in.Type, 1)
 		}
-	}
-	allValid := true
-	for _, p := range plans {
-		allValid = allValid && p.class == "valid"
-	}
-	switch {
-	case allValid && err == nil && len(pubs) > 0:
-		r.Count("calls_valid_published", 1)
-	case allValid && err != nil:
-		r.Count("calls_valid_rejected", 1)
-		r.Inconclusive("case %d: a correctly signed threshold set (%s, n=%d) was rejected: %v", c.Idx, k.name, env.n, err)
-	case !isMustError(class) && !allValid:
-		r.Count("calls_universal_only", 1)
-		if err == nil {
-			r.Count("universal_only_published/"+class, 1)
-			if class == "two-corruptions" {
-				r.Seen("two_corruptions_published", plans[victim].note)
+		switch {
+		case allValid && err == nil && len(pubs) > 0:
+			r.Count("calls_valid_published", 1)
+		case allValid && err != nil && faultServed:
+			// a valid call may fail when a lookup it needs was refused: either outcome is fine
+			r.Count("calls_valid_rejected_by_injected_fault", 1)
+		case allValid && err != nil:
+			r.Count("calls_valid_rejected", 1)
+			r.Inconclusive("case %d: a correctly signed threshold set (%s, n=%d) was rejected: %v", c.Idx, k.name, env.n, err)
+		case !isMustError(class) && !allValid:
+			r.Count("calls_universal_only", 1)
+			if err == nil {
+				r.Count("universal_only_published/"+class, 1)
+				if class == "two-corruptions" {
+					r.Seen("two_corruptions_published", plans[victim].note)
+				}
+			} else {
+				r.Count("universal_only_rejected/"+class, 1)
 			}
-		} else {
-			r.Count("universal_only_rejected/"+class, 1)
 		}
+
+		if c.Idx == 3 || c.Idx == 45 || c.Idx == 101 {
+			r.Sample(witness(map[string]any{"published_calls": len(pubs)}))
+		}
+
+		return err
+	}
+
+	firstErr := execute(set, plans, class, victim, newPlan())
+
+	// History: a verified aggregate must not vouch for a later one. Replay the call with the very
+	// same first partial (object, label and signature) for one validator but another partial now
+	// signed by an unrelated key: must be refused although an identical head was verified a moment ago.
+	if class == "valid" && firstErr == nil && rng.Intn(100) < 30 {
+		vp := rng.Intn(len(plans))
+		var plans2 []*valPlan
+		set2 := map[core.PubKey][]core.ParSignedData{}
+		for i, p := range plans {
+			q := *p
+			q.partials = append([]core.ParSignedData(nil), p.partials...)
+			q.meta = append([]partialMeta(nil), p.meta...)
+			if i == vp {
+				pos := 1 + rng.Intn(len(q.partials)-1)
+				key, kerr := tbls.GenerateInsecureKey(r.T(), rng)
+				if kerr != nil {
+					r.Inconclusive("case %d: %v", c.Idx, kerr)
+					return
+				}
+				par, m, perr := b.partial(q.partials[pos].SignedData, key, q.partials[pos].ShareIdx, "unrelated key", false, 0)
+				if perr != nil {
+					r.Inconclusive("case %d: %v", c.Idx, perr)
+					return
+				}
+				q.partials[pos], q.meta[pos] = par, m
+				q.class = "replayed-first-partial/wrong-share-key"
+				q.note = fmt.Sprintf("same first partial as the call verified just before; position %d now signed by an unrelated key", pos)
+			}
+			plans2 = append(plans2, &q)
+			set2[q.pub] = q.partials
+		}
+		_ = execute(set2, plans2, "replayed-first-partial/wrong-share-key", vp, newPlan())
+		r.Count("replay_followup_calls", 1)
 	}
 
 	c.NonTrivial(kit.Hash(k.name, env.n, class, victim, hashParts))
-	if c.Idx == 3 || c.Idx == 45 || c.Idx == 101 {
-		w := witness(map[string]any{"published_calls": len(pubs)})
-		r.Sample(w)
-	}
 }
 
 // reason reduces an error to its stable leading part (no keys, no hex).
